@@ -14,7 +14,7 @@ for _c, _a in ((J.Job, "init"), (J.Job, "move"), (J.Job, "remove"), (J.Job, "cle
     spy(_c, _a, f"{_c.__module__}.{_c.__qualname__}.{_a}")
 CODE = ["signac.job.Job.init / _StatePointDict.save / load", "signac.job._StatePointDict._save (re-key protocol with rollback)", "signac.job.Job.move / remove / clear / reset",
         "signac.project.Project.clone / check / _get_statepoint_from_workspace", "signac._utility._mkdir_p", "synced_collections JSON backend _save_to_resource (temp file + os.replace)"]
-BOUNDS = {"scenarios": "init fresh / existing valid / existing corrupt / existing empty dir; re-key to fresh / initialised / empty-dir destination; move (fresh / existing destination); clone with nested payload; remove; clear; reset",
+BOUNDS = {"scenarios": "clone onto an existing destination job; init fresh / existing valid / existing corrupt / existing empty dir; re-key to fresh / initialised / empty-dir destination; move (fresh / existing destination); clone with nested payload; remove; clear; reset",
           "fault sequences": "from step k on (any k) every call on a path inside one region {the job's directory, the destination directory in the same / the other project, a whole workspace} is denied with EACCES / EIO and "
                              "isfile/isdir/exists answer False there (what the standard library does when stat fails); state judged after access is restored",
           "faults": "crash before step k, torn write (0, 1 or 5 bytes) at step k, step k fails with EIO / ENOSPC / EACCES / EXDEV / EROFS; k ranges over ALL non-negative ints (unbounded symbolic); thorough: a second failing step k2 > k (EIO)",
@@ -26,7 +26,7 @@ ASSUMPTIONS = ["process-crash semantics: every completed file-system call is dur
 ERRNOS = [errno.EIO, errno.ENOSPC, errno.EACCES, errno.EXDEV, errno.EROFS]
 OLD, NEW = {"a": 0}, {"a": 1}
 PAYLOAD = {"f": b"F" * 7, "sub/g": b"G" * 9}
-NSCN = 13
+NSCN = 14
 
 
 def _setup(scn):
@@ -73,6 +73,11 @@ def _setup(scn):
         op = lambda: job.move(s.pr["/q"])
     elif scn == 10:   # clone with nested payload
         s.add_job("/p", OLD, doc={"k": 1}, files=PAYLOAD)
+        job = s.pr["/p"].open_job(OLD)
+        op = lambda: s.pr["/q"].clone(job)
+    elif scn == 14:   # clone onto a job that already exists in the destination project (refused; the existing job is a bystander of the failed call)
+        s.add_job("/p", OLD, doc={"k": 1}, files=PAYLOAD)
+        s.add_job("/q", OLD, doc={"dst": 1}, files={"d": b"D"})
         job = s.pr["/p"].open_job(OLD)
         op = lambda: s.pr["/q"].clone(job)
     else:             # remove / clear / reset
@@ -170,12 +175,18 @@ def _case(scn, mode, k, t, e, k2=None, rev=False, reg=0):
             for d in post[p]:
                 if d not in pre[p] and d not in affected:
                     problems.append(("unexpected directory", p, d))
+        if scn == 14 and post["/q"].get(old_id) != pre["/q"].get(old_id):
+            problems.append(("clone onto an existing job altered or removed that job", sorted(post["/q"].get(old_id, {}))))
+        if scn == 14 and post["/p"].get(old_id) != pre["/p"].get(old_id):
+            problems.append(("clone damaged the source",))
         # P2 payload under exactly one id directory (unless removal)
         had_payload = any(all(pre[p].get(d, {}).get(r) == c for r, c in PAYLOAD.items()) for p in pre for d in (old_id,))
         if had_payload and not removal:
             holders = [(p, d) for p in post for d, files in post[p].items() if d in affected and all(files.get(r) == c for r, c in PAYLOAD.items()) and files.get("signac_job_document.json") is not None
                        and json.loads(files["signac_job_document.json"]) == {"k": 1}]
-            if scn == 10:
+            if scn == 14:
+                pass
+            elif scn == 10:
                 # clone: the source must still hold everything; the copy may be partial only if the call did not return normally
                 if ("/p", old_id) not in holders:
                     problems.append(("clone damaged the source", holders))
@@ -293,7 +304,7 @@ def h_fault2(scn: int, k: int, d: int, e: int):
 def h_region(scn: int, reg: int, k: int, e: int, rev: bool):
     """fault SEQUENCE: from step k on (any k >= 0) every call on a path inside one directory region is denied (EACCES / EIO); queries answer False"""
     assert 0 <= scn <= NSCN and 0 <= reg <= 4 and 0 <= k and 0 <= e <= 1 and part_ok(scn)
-    assert not (scn == 10 and reg in (2, 4))   # clone into a destination that stays inaccessible: the partial copy cannot be cleaned up by anybody (outside)
+    assert not (scn in (10, 14) and reg in (2, 4))   # clone into a destination that stays inaccessible: the partial copy cannot be cleaned up by anybody (outside)
     fresh_path()
     scn, reg, e, rev = ci(scn, 0, NSCN), ci(reg, 0, 4), pick([errno.EACCES, errno.EIO], e), cb(rev)
     with nt():
@@ -311,9 +322,9 @@ def h_region__reach(scn: int, reg: int, k: int, e: int, rev: bool):
 
 
 HARNESSES = [
-    dict(name="h_fault", twin="h_fault__reach", timeout=(600, 1500), parts=(14, 14)),
-    dict(name="h_region", twin="h_region__reach", timeout=(600, 1500), parts=(14, 14)),
-    dict(name="h_fault2", timeout=(1500, 1500), parts=(14, 14), tiers=("thorough",)),
+    dict(name="h_fault", twin="h_fault__reach", timeout=(600, 1500), parts=(15, 15)),
+    dict(name="h_region", twin="h_region__reach", timeout=(600, 1500), parts=(15, 15)),
+    dict(name="h_fault2", timeout=(1500, 1500), parts=(15, 15), tiers=("thorough",)),
 ]
 
 
